@@ -27,7 +27,7 @@ def check(ctx):
     # ---- R1 taps = textbook Lagrange weights (partial evaluation for small concrete orders), sum to one
     key = f"{DSP}::lagrange_taps"; fn = repo.get(key); where = repo.where(key, fn); ctx.analysed(key)
     d = X.var("d")
-    for halfp in (1, 2, 3, 4):
+    for halfp in ((1, 2, 3, 4, 5, 6, 7, 8) if ctx.tier == 'thorough' else (1, 2, 3, 4)):
         I = Interp(repo)
         try:
             r = I.call_key(key, [Arr([("q", X.const(1))], d), X.const(halfp)], {}, St())
@@ -85,10 +85,11 @@ def check(ctx):
 def _stencils(ctx):
     repo = ctx.repo
     key = f"{DSP}::timeshift"; fn = repo.get(key); where = repo.where(key, fn)
-    n = 24
+    thorough = ctx.tier == "thorough"
+    n = 32 if thorough else 24
     ARRAY_KIND["dat"] = "real"; ARRAY_KIND["tap"] = "real"
-    for halfp in (1, 2, 3):
-        for shift in (Fr(9, 4), Fr(-7, 2), Fr(3, 4)):
+    for halfp in ((1, 2, 3, 4) if thorough else (1, 2, 3)):
+        for shift in ((Fr(9, 4), Fr(-7, 2), Fr(3, 4), Fr(-1, 8), Fr(5), Fr(16, 3)) if thorough else (Fr(9, 4), Fr(-7, 2), Fr(3, 4))):
             for path in ("constant", "varying"):
                 I = Interp(repo)
                 seen = []
